@@ -76,7 +76,7 @@ def verify(C, H, proof, extra):
     if not borromean.verify(e0, s, pubs, rsizes, m): return None
     return minv, maxv
 
-def make_proof(value, blind, H, exp, mantissa, minv, extra, rng, reserved=0, small=True, exp_field=None, mant_field=None, spare_bits=0, no_range=False, forged_override=None, bl_override=None):
+def make_proof(value, blind, H, exp, mantissa, minv, extra, rng, reserved=0, small=True, exp_field=None, mant_field=None, spare_bits=0, no_range=False, forged_override=None, bl_override=None, force_min_flag=False):
     """adversarial prover. The statement is value = minv + v*10^exp with v < 2^mantissa (all arithmetic over the integers, so
     wrapping headers can be produced). returns dict(C, proof, scalars offset, forged (flat list with None at the real ones), ...) or None"""
     if no_range:
@@ -86,7 +86,8 @@ def make_proof(value, blind, H, exp, mantissa, minv, extra, rng, reserved=0, sma
         rsizes = layout(mantissa); rings = len(rsizes); scale = 10 ** exp
         v = (value - minv) // scale
         if v * scale + minv != value or not 0 <= v < (1 << mantissa): return None
-        hdr = bytes([64 | (exp if exp_field is None else exp_field) | (32 if minv else 0) | (128 if reserved else 0), (mantissa - 1) if mant_field is None else mant_field]) + (minv.to_bytes(8, 'big') if minv else b'')
+        hm = bool(minv) or force_min_flag      # the minimum-value field may be present with an explicit zero
+        hdr = bytes([64 | (exp if exp_field is None else exp_field) | (32 if hm else 0) | (128 if reserved else 0), (mantissa - 1) if mant_field is None else mant_field]) + (minv.to_bytes(8, 'big') if hm else b'')
     C = add(mulG(blind), mul(value, H) if value else None)
     if C is None: return None
     digs = [(v >> (2 * i)) & 3 for i in range(rings)] if not no_range else [0]
